@@ -48,6 +48,8 @@ type Contract struct {
 	Ifaces   map[string]string
 	MayNil   []string
 	Inline   bool
+	PreferInt bool // verify in mathematical-integer mode first (callee contracts are mode-agnostic then)
+	Expand   []string // callees (display-name suffixes) whose body is expanded in this function although they have a contract
 	Trusted  bool
 	Schema   string
 	File     string
@@ -67,7 +69,7 @@ type Contract struct {
 	Impls    []string        // keys of the implementing methods
 }
 
-var clauseHead = regexp.MustCompile(`^(abstract|keys|check|mode|ghost|requires|ensures|modifies|loop|bound|iface|maynil|inline|trusted|panics-if|nosafety|maxpaths|alias|decreases)\b(.*)$`)
+var clauseHead = regexp.MustCompile(`^(prefer-int|expand|abstract|keys|check|mode|ghost|requires|ensures|modifies|loop|bound|iface|maynil|inline|trusted|panics-if|nosafety|maxpaths|alias|decreases)\b(.*)$`)
 var tagRe = regexp.MustCompile(`^\s*\[([^\]]+)\]\s*(.*)$`)
 
 // ParseContractFile parses the //@ lines of one file. pkgPath is the import path of its package.
@@ -334,6 +336,10 @@ func (c *Contract) addClause(head, rest, where string) error {
 		c.MayNil = append(c.MayNil, strings.Fields(rest)...)
 	case "inline":
 		c.Inline = true
+	case "prefer-int":
+		c.PreferInt = true
+	case "expand":
+		c.Expand = append(c.Expand, strings.Fields(rest)...)
 	case "trusted":
 		c.Trusted = true
 	case "nosafety":
